@@ -331,14 +331,16 @@ pub struct Scratch {
 
 impl Scratch {
     pub fn new() -> Scratch {
-        let root = PathBuf::from(format!("/dev/shm/pyxis-sim.{}", std::process::id()));
+        // (fixed-width names: how long the scratch path is decides where an over-long world path
+        // stops being reachable, and that must not depend on the process id or a counter)
+        let root = PathBuf::from(format!("/dev/shm/pyxis-sim.{:010}", std::process::id()));
         let _ = std::fs::remove_dir_all(&root);
         std::fs::create_dir_all(&root).expect("create scratch root");
         Scratch { root, counter: 0 }
     }
     pub fn for_thread(tag: u64) -> Scratch {
         let root = PathBuf::from(format!(
-            "/dev/shm/pyxis-sim.{}/t{}",
+            "/dev/shm/pyxis-sim.{:010}/t{:020}",
             std::process::id(),
             tag
         ));
@@ -348,7 +350,7 @@ impl Scratch {
     }
     fn fresh(&mut self) -> PathBuf {
         self.counter += 1;
-        let p = self.root.join(format!("r{}", self.counter));
+        let p = self.root.join(format!("r{:012}", self.counter));
         let _ = std::fs::remove_dir_all(&p);
         std::fs::create_dir_all(&p).expect("create scratch dir");
         p
